@@ -230,6 +230,22 @@ def doPlanReuse (l : Line) : Option String := do
   let ip ← l.bool? "inplace"
   some s!"ok executed={if executedPlanInPlace g ip then 1 else 0}"
 
+/-- `normaxes ndim= axes=none|i,j,…` -/
+def doNormAxes (l : Line) : Option String := do
+  let nd ← l.nat? "ndim"
+  let ax ← match l.get? "axes" with
+    | some "none" => some none
+    | some v => (parseIntList v).map some
+    | none => none
+  match normAxes nd ax with
+  | some r => some s!"ok {showNatList r}"
+  | none => some "err:value"
+
+/-- `adjexposed orth= weights=` -/
+def doAdjExposed (l : Line) : Option String := do
+  let o ← l.bool? "orth"; let w ← l.bool? "weights"
+  some s!"ok {if adjointExposed o w then 1 else 0}"
+
 /-- `ctor kind=dft|ft fwdplus= hc= lastshift=`: constructor accepts / rejects -/
 def doCtor (l : Line) : Option String := do
   let k ← l.get? "kind"; let p ← l.bool? "fwdplus"; let hc ← l.bool? "hc"
@@ -249,6 +265,8 @@ def handle (l : Line) : Option String :=
   | "dftrange" => doDftRange l
   | "plan" => doPlan l
   | "ctor" => doCtor l
+  | "normaxes" => doNormAxes l
+  | "adjexposed" => doAdjExposed l
   | "planreuse" => doPlanReuse l
   | "ft" => doFt l
   | "padmode" => doPad l
